@@ -95,7 +95,10 @@ class Prop(G.InputPropBase):
             if i % 2:
                 # the same garbage delivered in random chunks
                 sfx = SUFFIXES[i % len(SUFFIXES)]
-                line = "I %s,%s,%s / %s" % (G.chunkings(rng, g, "random"), G.hx(LETTERS[i % 8]), G.hx(sfx), G.hx(sfx))
+                chunks = G.chunkings(rng, g, "random")
+                if i % 4 == 1:
+                    chunks = G.with_ops(rng, chunks)     # output-side operations between the deliveries
+                line = "I %s,%s,%s / %s" % (chunks, G.hx(LETTERS[i % 8]), G.hx(sfx), G.hx(sfx))
             cs.append(Case(line, cfgs=["C07"], tag=tag))
         for n in ([10, 100, 1000, 10000, 100000] if tier == "quick" else [10, 100, 1000, 10000, 50000, 100000, 100000]):
             for intro in (b"\x1b[", b"\x9b", b"\x1bO", b"\x1b[1;", b"\x1b[?"):
@@ -112,4 +115,5 @@ class Prop(G.InputPropBase):
                     cs.append(Case("I " + pair(rep * n + dangling, k), sweep="resync-after-n-items", cfgs=["C07"], tag="resync-after-n-items"))
                     k += 1
         cs += G.numeric_sweep("C07")
+        cs += G.parameter_shape_sweep(tier, "C07")
         return cs
